@@ -1,6 +1,6 @@
 (* C10 — every exit path leaves no spawned process behind.
    Property theorems only; proofs are in Proofs/SysProc.v, Proofs/SysRoot.v, Proofs/SysTerm.v, Proofs/SysBound.v. *)
-From Zinoma.Proofs Require Import SysProc SysTerm SysBound.
+From Zinoma.Proofs Require Import SysProc SysTerm SysBound SysShutdownW SysWitness.
 
 (* any mode, any interleaving, whichever way out (normal completion, failed target, signal): an actor that has left its
    loop holds neither a build script nor a service process — the kill and the reaping happen before the loop is left *)
@@ -50,3 +50,29 @@ Theorem C10_oneshot_shutdown_completes :
     reachable fx false g roots s -> ph s = PTerminating st ->
     exists ls s', run_labels fx false s ls = Some s' /\ ph s' = PExited st /\ length ls <= Phi s.
 Proof. exact shutdown_completes. Qed.
+
+(* ... IN EVERY MODE (watch mode included: a signal arriving with a rebuild cascade in flight, builds in progress, services up):
+   with the repaired handlers, for every acyclic graph, from every reachable state in which termination has begun, a continuation
+   of at most PhiW(s) steps — PhiW the weighted potential of C06_rebuild_cascade_is_finite — ends in the exited state with the same
+   status; by that theorem no continuation without further file changes is longer. *)
+Theorem C10_shutdown_completes_any_mode :
+  forall (g : graph) (roots : list tid) (w : bool) (rank : tid -> nat),
+    (forall t k deps d, g !! t = Some (k, deps) -> d ∈ deps -> (rank d < rank t)%nat) ->
+    forall (s : sys) (st : status),
+      reachable true w g roots s -> ph s = PTerminating st ->
+      exists ls s', run_labels true w s ls = Some s' /\ ph s' = PExited st /\
+                    (length ls <= PhiW (wokG g rank) (winvG g rank) (sokG g rank) s)%nat.
+Proof. exact shutdown_completes_any_mode. Qed.
+
+(* the hypotheses are met in watch mode with a cascade in flight: `2: [1]` watched, first run done, the input of 1 changes, 1 is
+   being rebuilt (its script is in progress, 2 is out of date) when the signal arrives and the root begins the termination *)
+Example C10_terminating_mid_cascade :
+  let g : graph := <[1%N := (ABuild, [])]> (<[2%N := (ABuild, [1%N])]> ∅) in
+  exists s,
+    run_labels true true (init_sys g [2%N])
+      [LDeliver 2%N true; LDeliver 1%N true; LDeliver 1%N true; LBuildDone 1%N RCompleted; LDeliver 2%N true;
+       LDeliver 2%N true; LDeliver 2%N true; LBuildDone 2%N RCompleted; LRoot; LRoot;
+       LChange [1%N]; LInval 1%N true; LSignal; LRootSignal] = Some s /\
+    (bool_decide (ph s = PTerminating SOk) && negb (quiescent true true s) &&
+     bool_decide (hist s = [ObStart 1%N; ObSucc 1%N; ObStart 2%N; ObSucc 2%N; ObStart 1%N])) = true.
+Proof. apply witness_intro. vm_compute. reflexivity. Qed.
